@@ -80,6 +80,10 @@ pub enum Op {
     /// sleep past the short TTL (only if a short-TTL grant is outstanding; at most 2 per case);
     /// `poke`: root reads afterwards (the documented point at which expired grants are reaped)
     Sleep { poke: bool },
+    /// the same sleep spent SEALED: seal, sleep past the short TTL, one get_permission while
+    /// sealed (it is not seal-guarded and runs the expiry sweep), unseal with the master password.
+    /// Expired grants must be as dead after the cycle as after a plain sleep.
+    SealedSleep,
 }
 
 #[derive(Clone, Debug, Serialize, Deserialize, PartialEq, Eq)]
@@ -205,7 +209,7 @@ fn op(short: bool) -> BoxedStrategy<Op> {
         2 => Just(Op::Scan),
     ];
     if short {
-        prop_oneof![100 => base, 7 => any::<bool>().prop_map(|poke| Op::Sleep { poke })].boxed()
+        prop_oneof![100 => base, 7 => any::<bool>().prop_map(|poke| Op::Sleep { poke }), 3 => Just(Op::SealedSleep)].boxed()
     } else {
         base.boxed()
     }
